@@ -981,8 +981,19 @@ pub fn oracle_c13(ctors: &[Ctor]) -> Verdict {
                     Some(Err(e)) => Err(show_k(&e)),
                     None => Err("none".into()),
                 });
+                // whatever that access did, an iteration begun now starts at the first record
+                v.push(match r.iter_shapes().next() {
+                    Some(Ok(s)) => Ok(s.to_sv()),
+                    Some(Err(e)) => Err(show_k(&e)),
+                    None => Err("none".into()),
+                });
             }
             let _ = &c2;
+            // ... and one more iteration on the same reader: whatever failed before, the items it
+            // yields are the file's records from the first on (marked so that they are compared by
+            // position with the healthy second iteration)
+            v.push(Err("--- second iteration".into()));
+            v.extend(r.iter_shapes().map(|i| i.map(|s| s.to_sv()).map_err(|e| show_k(&e))));
             Ok(v)
         }));
         match r {
@@ -1009,7 +1020,9 @@ pub fn oracle_c13(ctors: &[Ctor]) -> Verdict {
         let _: Vec<_> = r.iter_shapes().collect();
         for i in (0..shapes.len()).rev() {
             let _ = r.read_nth_shape(i);
+            let _ = r.iter_shapes().next();
         }
+        let _: Vec<_> = r.iter_shapes().collect();
         let n = counter.borrow().calls;
         n
     };
@@ -1030,11 +1043,30 @@ pub fn oracle_c13(ctors: &[Ctor]) -> Verdict {
                 if !v.iter().any(|i| matches!(i, Err(e) if *e == want)) {
                     return Verdict::fail("source-fault-swallowed", format!("source failing at call {} with an error of kind {}: no call reported that error (errors reported: {:?})", k, &want[3..], v.iter().filter_map(|i| i.as_ref().err()).collect::<Vec<_>>()));
                 }
-                for (g, h) in v.iter().zip(healthy.iter()) {
-                    if let Ok(g) = g {
-                        if Ok(g) != h.as_ref() {
-                            return Verdict::fail("source-fault-wrong-shape", format!("source failing at call {}: a shape differs from the healthy traversal", k));
-                        }
+                // layout of the traversal: n iteration items; then for i = n-1..0 the random access at
+                // i and the first item of a new iteration; a marker; a last full iteration
+                let n = shapes.len();
+                let rec = |j: usize| healthy.get(j).and_then(|h| h.as_ref().ok());
+                for (pos, (g, h)) in v.iter().zip(healthy.iter()).enumerate() {
+                    let g = match g {
+                        Ok(g) => g,
+                        Err(_) => continue,
+                    };
+                    let is_first_after = pos >= n && pos < 3 * n && (pos - n) % 2 == 1;
+                    let in_last = pos > 3 * n;
+                    let ok = if is_first_after {
+                        // a successful access rewinds the cursor; a failed one either did so too or
+                        // left it where the previous one-item iteration had put it (after record 0):
+                        // never at the record it was asked for
+                        Some(g) == rec(0) || (n > 1 && Some(g) == rec(1))
+                    } else if in_last {
+                        // genuine records, wherever the (possibly failed) calls before left the cursor
+                        (0..n).any(|j| Some(g) == rec(j))
+                    } else {
+                        Ok(g) == h.as_ref()
+                    };
+                    if !ok {
+                        return Verdict::fail("source-fault-wrong-shape", format!("source failing at call {}: result #{} of the traversal (iteration; random access at n-1..0, each followed by the first item of a new iteration; a full iteration) is {} where the healthy traversal has {:?}", k, pos, show_sv(g), h.as_ref().map(|s| show_sv(s))));
                     }
                 }
             }
@@ -1306,6 +1338,11 @@ pub fn oracle_scenario(prop: &str, a: &[String]) -> Option<Verdict> {
             let v = u32::from_str_radix(a.get(2)?, 16).ok()?;
             Some(crate::round3::oracle_header_code_any_version(code, v.to_be_bytes()))
         }
+        (_, Some("path-foreign-layout")) => Some(crate::round6::oracle_path_foreign_layout()),
+        (_, Some("path-trailing")) => Some(crate::round6::oracle_path_trailing()),
+        (_, Some("path-uppercase")) => Some(crate::round6::oracle_path_uppercase()),
+        (_, Some("path-truncated")) => Some(crate::round6::oracle_path_truncated()),
+        (_, Some("chunked-destination")) => Some(crate::round6::oracle_chunked_destination(a.get(1)?.parse().ok()?)),
         (_, Some("iter-adaptors")) => Some(crate::round5::oracle_iter_adaptors(a.get(1)?.parse().ok()?)),
         (_, Some("big-index-routes")) => Some(crate::round5::oracle_big_index_routes(a.get(1)?.parse().ok()?)),
         (_, Some("gap-faults")) => Some(crate::round5::oracle_gap_faults()),
